@@ -899,8 +899,15 @@ class CacheTaint:
                 if not any(sd.values()):
                     continue
                 sub = self.summary(g, sd)
-                for ev in sub.events:
-                    s.events.append(Event(ev.kind, n, f"passed to {g.name}({', '.join(sorted(sd))}) which does: {ev.text}"))
+                if sub is s:
+                    continue  # direct recursion: nothing new
+                have = {(e.kind, id(e.node)) for e in s.events}
+                for ev in list(sub.events):
+                    if (ev.kind, id(n)) in have:
+                        continue
+                    have.add((ev.kind, id(n)))
+                    inner = ev.text.split(" which does: ")[-1]
+                    s.events.append(Event(ev.kind, n, f"passed to {g.name}({', '.join(sorted(sd))}) which does: {inner}"))
         return s
 
 
@@ -1093,9 +1100,9 @@ VARIANTS = [
     ),
     Variant(
         "lint-string-updates-shared-config", LINTER,
-        "        # Get rules as appropriate\n        rule_pack = self.get_rulepack(config=config)\n        # Lint the file and return the LintedFile",
-        "        # Get rules as appropriate\n        config.process_raw_file_for_config(in_str, fname)\n        rule_pack = self.get_rulepack(config=config)\n        # Lint the file and return the LintedFile",
-        "R27b", "Linter.lint_string", "a tempting wrong repair of the stale-rule-pack defect",
+        "        rule_pack = self.get_rulepack(config=parsed.config)\n        # Lint the file and return the LintedFile",
+        "        config.process_raw_file_for_config(in_str, fname)\n        rule_pack = self.get_rulepack(config=config)\n        # Lint the file and return the LintedFile",
+        "R27b", "Linter.lint_string", "the tempting wrong way to give lint_string the inline config: update the shared config in place",
     ),
     Variant(
         "render-string-updates-callers-config", LINTER,
